@@ -1,2 +1,71 @@
-Theorem C02_placeholder : True. Proof. exact I. Qed.
-Print Assumptions C02_placeholder.
+(* C02 — battles are scheduled and decided by the standard rules.
+   Sim.run_cycle / Sim.run are the literal models of RunCycle / Run that the
+   harness runs against gmars; Mars is the reference scheduler.  Rel s t says
+   that the reference state t describes the model state s (same core cell for
+   cell, same queues, alive flags and completed cycles); Inv is C04's
+   invariant; guards are C01's (M <= 2^32, limits 1..M). *)
+From GM Require Import Base Exec Sim Emi94 Mars QueueProof InvSim C02Proof.
+Open Scope N_scope.
+
+(* one RunCycle call is one cycle of the reference scheduler — every living
+   warrior in loading order runs the task at the front of its queue, a warrior
+   dies when its queue empties, the cycle is cut short (and not counted) when a
+   death leaves one of several alive — or does nothing when the battle is over *)
+Theorem C02_cycle_refines_mars :
+  forall s t, Inv s -> guards s -> Rel s t ->
+  match run_cycle s with
+  | Panic => False
+  | Ok (s', r, _) =>
+    if can_run s t then
+      let t' := m_cycle (cfg_of s) t in
+      Rel s' t' /\ Inv s' /\ cfg_of s' = cfg_of s /\
+      r = (if m_cycles t' =? m_cycles t then 1%Z else Z.of_nat (m_living t'))
+    else s' = s /\ r = 0%Z
+  end.
+Proof. exact run_cycle_refines. Qed.
+Print Assumptions C02_cycle_refines_mars.
+
+(* Run() ends in the state reached by iterating cycles until the battle is
+   finished, returns the alive flags, and needs at most cycles-left+1 iterations *)
+Theorem C02_run_is_stepping :
+  forall s t, Inv s -> guards s -> Rel s t -> s_ws s <> [] ->
+  forall fuel, (N.to_nat (s_cycles s - s_cycle s) < fuel)%nat ->
+  match run fuel s with
+  | RunOk s' (Some flags) =>
+      Rel s' (m_until_done (cfg_of s) fuel t) /\ Inv s' /\ flags = map alive (s_ws s')
+  | _ => False
+  end.
+Proof. exact run_refines. Qed.
+Print Assumptions C02_run_is_stepping.
+
+(* SpawnWarrior loads the code at (offset+i) mod M and queues the entry point
+   (offset+start) mod M, for any offset below 2^64 *)
+Theorem C02_spawn_refines :
+  forall s t wi off, Inv s -> guards s -> Rel s t -> off < two64 ->
+  Forall (fun w => (0 <= w_start w)%Z /\
+                   Z.to_N (w_start w) + N.of_nat (length (w_code w)) + 2 * s_m s < two64) (s_ws s) ->
+  match spawn_warrior s wi off with
+  | Panic => False
+  | Ok (inr _) =>
+      (wi < 0)%Z \/ (Z.of_nat (length (s_ws s)) <= wi)%Z \/
+      exists w, nth_error (m_ws t) (Z.to_nat wi) = Some w /\ m_alive w = true
+  | Ok (inl (s', _)) =>
+      (0 <= wi)%Z /\
+      exists t', m_spawn (cfg_of s) t (Z.to_nat wi) off = Some t' /\ Rel s' t' /\ Inv s' /\
+                 cfg_of s' = cfg_of s
+  end.
+Proof. exact spawn_refines. Qed.
+Print Assumptions C02_spawn_refines.
+
+(* the process queue: Push appends while fewer than P tasks are held, Pop takes the front *)
+Theorem C02_queue_is_bounded_fifo :
+  (forall q xs, rq_wf q ->
+     rq_wf (fold_left rq_push xs q) /\ q_size (fold_left rq_push xs q) = q_size q /\
+     rq_values (fold_left rq_push xs q) = enq (q_size q) (rq_values q) xs) /\
+  (forall q, rq_wf q ->
+     match rq_pop q with
+     | None => rq_values q = []
+     | Some (x, q') => rq_values q = x :: rq_values q' /\ rq_wf q' /\ q_size q' = q_size q
+     end).
+Proof. split; [exact rq_pushes|exact rq_pop_spec]. Qed.
+Print Assumptions C02_queue_is_bounded_fifo.
